@@ -12,6 +12,7 @@ static void mon_cas(void* addr, uint64_t e, uint64_t d, _Bool ok, int o);
 #define XV_ON_CAS(addr, e, d, ok, order) mon_cas((void*)(addr), (uint64_t)(e), (uint64_t)(d), (ok), (order))
 #include "xv.h"
 int xv_threw; uint64_t xv_clock, xv_rmw_old; _Bool xv_cas_ok;
+#define nondet_word() ((word_t)nondet_uptr())
 
 /* ---- compile-time shapes ---- */
 #ifndef XV_E
@@ -30,38 +31,45 @@ int xv_threw; uint64_t xv_clock, xv_rmw_old; _Bool xv_cas_ok;
 #define XV_BACKOFF() ((void)0)
 
 /* ---- types: every pointer-like thing is a word ---- */
-typedef uintptr_t marked_ptr, guard_ptr, raw_value_type, value_type, marked_value;
-typedef struct { _Bool has; uintptr_t v; } optval;
+#ifndef XV_WORD
+#define XV_WORD uint16_t       /* opaque words: only copied and compared by the code (data independence); 15 value bits + mark bit */
+#endif
+typedef XV_WORD word_t;
+typedef word_t marked_ptr, guard_ptr, raw_value_type, value_type, marked_value;
+typedef struct { _Bool has; word_t v; } optval;
 #define XV_NULLOPT ((optval){0, 0})
 #define OPT_has(o) ((o).has)
 #define OPT_value(o) ((o).v)
 /* marked_value = marked_ptr<.,1>: mark in bit 63 (contract of marked_ptr, unit mp) */
-#define MARK63 ((uintptr_t)1 << 63)
-#define MV_make(p, m) ((uintptr_t)(p) | ((uintptr_t)(m) << 63))
-#define MV_get(v) ((uintptr_t)(v) & ~MARK63)
+#define MARK63 ((word_t)((word_t)1 << (sizeof(word_t) * 8 - 1)))       /* the mark bit is the top bit of the word (bit 63 of the real marked_ptr<T,1>) */
+#define MV_make(p, m) ((word_t)((word_t)(p) | ((m) ? MARK63 : 0)))
+#define MV_get(v) ((word_t)((word_t)(v) & (word_t)~MARK63))
 #define INVALID MARK63
 #define IS_VALUE(w) ((w) != 0 && ((w) & MARK63) == 0)
 #define IS_ENTRY_WORD(w) ((w) == 0 || (w) == INVALID || IS_VALUE(w))
 
-struct entry { marked_value value; };
-struct node {
-  unsigned pop_idx; struct entry entries[XV_E]; unsigned push_idx; marked_ptr next;
-  /* ghost */ _Bool g_live; unsigned g_retired, g_deleted;
-};
-struct ramq { marked_ptr _head, _tail; };
+/* nodes: one small array per member (a node pointer is the word NPTR(i)); struct node is only the harness' snapshot type */
+#ifndef NN
 #define NN 4
-struct node pool[NN];
-#define NPTR(i) ((uintptr_t)((i) + 1) << 6)
+#endif
+unsigned a_pop_idx[NN], a_push_idx[NN]; marked_ptr a_next[NN]; marked_value a_entry[NN][XV_E];
+_Bool a_live[NN]; unsigned a_retired[NN], a_deleted[NN];       /* ghost: allocated and not deleted / retire count / delete count */
+struct node { unsigned pop_idx; marked_value ent[XV_E]; unsigned push_idx; marked_ptr next; _Bool g_live; unsigned g_retired, g_deleted; };
+struct ramq { marked_ptr _head, _tail; };
+#define NPTR(i) ((word_t)(((i) + 1) << 6))
+
+/* ---- harness inputs (named in_* for the native replays) ---- */
+unsigned in_e, in_pop_t, in_push_t, in_gk; word_t in_val;
 
 /* ---- ghost state ---- */
 unsigned g_released, g_get_count, g_del_total, g_alloc_count, g_delete_count, g_fresh, g_valdel;
-uintptr_t g_get_val, g_trk_val, g_last_alloc;
+word_t g_get_val, g_trk_val, g_last_alloc;
 _Bool g_alloc_may_fail, g_dtor_stub;
 
 /* ---- guard_ptr contract stubs ---- */
-uintptr_t it_guard; _Bool it_acquired; uint64_t it_acq_clock;
+word_t it_guard; _Bool it_acquired; uint64_t it_acq_clock;
 #define G_acquire(g, cell, order) ((g) = A_LOAD(cell, order), it_guard = (g), it_acquired = 1, it_acq_clock = xv_clock)
-unsigned it_reclaims; uintptr_t it_reclaimed;
+unsigned it_reclaims; word_t it_reclaimed;
 #define G_reclaim(g) (g_reclaim(g), (g) = 0)
 
 /* ---- pointer_queue_traits contract stubs (unit pqt) ---- */
@@ -72,119 +80,137 @@ unsigned it_reclaims; uintptr_t it_reclaimed;
 struct ramq* mon_q;
 /* per-iteration event records (reset at the loop head by XV_HAVOC_*) */
 unsigned it_idx; _Bool it_ticket_drawn;   /* counter value returned by the fetch_add of this iteration */
-uintptr_t it_next_val; _Bool it_next_loaded;
-_Bool it_link_tried, it_link_ok; uintptr_t it_link_desired;
-_Bool it_entry_cas, it_entry_cas_ok, it_entry_xchg; uintptr_t it_entry_seen; void* it_entry_addr;
+word_t it_next_val; _Bool it_next_loaded;
+_Bool it_link_tried, it_link_ok; word_t it_link_desired;
+_Bool it_entry_cas, it_entry_cas_ok, it_entry_xchg, it_entry_read; word_t it_entry_seen;
 unsigned it_head_cas, it_tail_cas; _Bool it_head_cas_ok;
-uintptr_t g_raw;          /* the value being pushed (INT runs) */
+word_t g_raw;          /* the value being pushed (INT runs) */
 #define IT_RESET it_acquired = 0; it_ticket_drawn = 0; it_next_loaded = 0; it_link_tried = 0; it_link_ok = 0; it_entry_cas = 0; \
-  it_entry_cas_ok = 0; it_entry_xchg = 0; it_entry_seen = 0; it_entry_addr = 0; it_head_cas = 0; it_tail_cas = 0; it_head_cas_ok = 0; it_reclaims = 0
+  it_entry_cas_ok = 0; it_entry_xchg = 0; it_entry_seen = 0; it_entry_read = 0; it_head_cas = 0; it_tail_cas = 0; it_head_cas_ok = 0; it_reclaims = 0
 
 
 /* ---- prototypes of everything the lowered text calls (definitions follow the include: they use the extracted constants) ---- */
-static unsigned node_idx(uintptr_t w);
-static void g_reclaim(uintptr_t g);
-static optval TR_get(uintptr_t raw);
-static void TR_delete_value(uintptr_t raw);
+static unsigned node_idx(word_t w);
+static void g_reclaim(word_t g);
+static optval TR_get(word_t raw);
+static void TR_delete_value(word_t raw);
 static marked_ptr XV_NEW_NODE(raw_value_type item);
 static void XV_DELETE_NODE(marked_ptr w);
 static void havoc_shared(void);
 static optval stub_pop(struct ramq* self);
-static _Bool is_nptr(uintptr_t w);
-static unsigned nidx(uintptr_t w);
+static _Bool is_nptr(word_t w);
+static unsigned nidx(word_t w);
 #define XV_POP(self) stub_pop(self)
-/* a case split over the pool elements: cbmc then reads/writes only the field concerned of each candidate node */
-#define NODE_P(i) ((i) == 0 ? &pool[0] : (i) == 1 ? &pool[1] : (i) == 2 ? &pool[2] : &pool[3])
-#define GDEREF(g) NODE_P(node_idx(g))
-#define XV_INIT_pop_idx(self, v) ((self)->pop_idx = (v))
-#define XV_INIT_push_idx(self, v) ((self)->push_idx = (v))
-#define XV_INIT_next(self, v) ((self)->next = (v))
+#define N_pop_idx(g) (a_pop_idx[node_idx(g)])
+#define N_push_idx(g) (a_push_idx[node_idx(g)])
+#define N_next(g) (a_next[node_idx(g)])
+#define N_entry(g, i) (a_entry[node_idx(g)][i])
+#define XV_INIT_pop_idx(self, v) (N_pop_idx(self) = (v))
+#define XV_INIT_push_idx(self, v) (N_push_idx(self) = (v))
+#define XV_INIT_next(self, v) (N_next(self) = (v))
 #ifdef XV_INT
 void xv_env(void);
 #endif
 
 /* ---- loop cuts (INT runs): one arbitrary iteration from an arbitrary typed state ---- */
 static void havoc_shared(void);
-#define XV_INV_PUSH (g_alloc_count == g_delete_count && g_valdel == 0 && g_del_total == 0 && (t == 0 || (is_nptr(t) && pool[nidx(t) % NN].g_live)))
-#define XV_HAVOC_PUSH t = nondet_uptr(); value = nondet_bool() ? value : 0; IT_RESET; havoc_shared() \
-  /* writes: idx expected next new_node (declared inside); shared cells via GDEREF / self: _tail next push_idx entries */
-#define XV_INV_POP (h == 0 || (is_nptr(h) && pool[nidx(h) % NN].g_live))
-#define XV_HAVOC_POP h = nondet_uptr(); IT_RESET; havoc_shared() \
-  /* writes: idx value cnt expected next pop_idx push_idx (declared inside); shared cells via GDEREF / self: _head pop_idx entries */
+/* INT: nothing is carried from one iteration to the next except: every node this thread allocated and could not link has been deleted again,
+ * nothing was destroyed, and an iteration that published the value (successful entry CAS / link CAS) does not come back here */
+#define XV_INV_PUSH (g_alloc_count == g_delete_count && g_valdel == 0 && g_del_total == 0 && !it_entry_cas_ok && !it_link_ok \
+                     && (t == 0 || (is_nptr(t) && a_live[nidx(t) % NN])))
+#define XV_HAVOC_PUSH t = nondet_word(); value = nondet_bool() ? value : 0; IT_RESET; havoc_shared() \
+  /* writes: idx expected next new_node (declared inside); shared cells via GDEREF(t)->entries[idx].value / push_idx / next (lowered to N_entry, N_push_idx, N_next) and self->_tail */
+#define XV_INV_POP ((h == 0 || (is_nptr(h) && a_live[nidx(h) % NN])) && g_get_count == 0 \
+                    && (!(it_ticket_drawn && it_idx < max_idx) || (it_entry_xchg && it_entry_seen == 0)))
+#define XV_HAVOC_POP h = nondet_word(); IT_RESET; havoc_shared() \
+  /* writes: idx value cnt expected next pop_idx push_idx (declared inside); shared cells via GDEREF(h)->entries[idx].value / pop_idx (lowered to N_entry, N_pop_idx) and self->_head */
+/* SEQ: the loops are cut by invariants that relate the current state to the pre-state snapshot (defined below) */
+static _Bool inv_pushseq(word_t value);
+static _Bool inv_popseq(void);
+static void havoc_nodes_seq(void);
+#define XV_INV_PUSHSEQ inv_pushseq(value)
+#define XV_HAVOC_PUSHSEQ t = nondet_word(); value = nondet_word(); havoc_nodes_seq() \
+  /* writes: idx expected next new_node (declared inside); shared cells via GDEREF(t)->entries[idx].value / push_idx / next (lowered to N_entry, N_push_idx, N_next) and self->_tail */
+#define XV_INV_POPSEQ inv_popseq()
+#define XV_HAVOC_POPSEQ h = nondet_word(); havoc_nodes_seq() \
+  /* writes: idx value cnt expected next pop_idx push_idx (declared inside); shared cells via GDEREF(h)->entries[idx].value / pop_idx (lowered to N_entry, N_pop_idx) and self->_head */
 
 #include "lowered.h"
 
 /* ---- node pointers ---- */
-static _Bool is_nptr(uintptr_t w) { return w != 0 && (w & 63) == 0 && (w >> 6) <= NN; }
-static unsigned nidx(uintptr_t w) { return (unsigned)(w >> 6) - 1; }
-static unsigned node_idx(uintptr_t w) {
-  _Bool ok = is_nptr(w) && NODE_P(nidx(w))->g_live;
+static _Bool is_nptr(word_t w) { return w != 0 && (w & 63) == 0 && (w >> 6) <= NN; }
+static unsigned nidx(word_t w) { return (unsigned)(w >> 6) - 1; }
+static unsigned node_idx(word_t w) {
+  _Bool ok = is_nptr(w) && a_live[nidx(w) % NN];
   XV_OBL("ram.node.live_deref", ok);        /* every node that is dereferenced is allocated and has not been deleted */
   XV_ASSUME(ok);
   return nidx(w);
 }
-static void g_reclaim(uintptr_t g) { NODE_P(node_idx(g))->g_retired++; it_reclaims++; it_reclaimed = g; }
+static void g_reclaim(word_t g) { a_retired[node_idx(g)]++; it_reclaims++; it_reclaimed = g; }
 
-static optval TR_get(uintptr_t raw) { g_get_count++; g_get_val = raw; return (optval){1, raw}; }
-static void TR_delete_value(uintptr_t raw) {
+static optval TR_get(word_t raw) { g_get_count++; g_get_val = raw; return (optval){1, raw}; }
+static void TR_delete_value(word_t raw) {
   if (raw == 0) return;                                 /* unique_ptr<T>{nullptr}: nothing destroyed */
   g_del_total++;
   if (raw == g_trk_val) g_valdel++;
 }
 
-/* ---- new / delete of nodes: pool allocation running the REAL lowered constructor / destructor ---- */
-static void havoc_words(struct node* n) {
-  n->pop_idx = nondet_uint(); n->push_idx = nondet_uint(); n->next = nondet_uptr();
-  for (unsigned s = 0; s < XV_E; s++) n->entries[s].value = nondet_uptr();
+/* ---- harness view of a node ---- */
+static struct node snap(unsigned i) {
+  struct node n; n.pop_idx = a_pop_idx[i]; n.push_idx = a_push_idx[i]; n.next = a_next[i];
+  for (unsigned s = 0; s < XV_E; s++) n.ent[s] = a_entry[i][s];
+  n.g_live = a_live[i]; n.g_retired = a_retired[i]; n.g_deleted = a_deleted[i];
+  return n;
 }
+static void put(unsigned i, const struct node* n) {
+  a_pop_idx[i] = n->pop_idx; a_push_idx[i] = n->push_idx; a_next[i] = n->next;
+  for (unsigned s = 0; s < XV_E; s++) a_entry[i][s] = n->ent[s];
+  a_live[i] = n->g_live; a_retired[i] = n->g_retired; a_deleted[i] = n->g_deleted;
+}
+static void havoc_words(struct node* n) {
+  n->pop_idx = nondet_uint(); n->push_idx = nondet_uint(); n->next = nondet_word();
+  for (unsigned s = 0; s < XV_E; s++) n->ent[s] = nondet_word();
+}
+/* ---- new / delete of nodes: pool allocation running the REAL lowered constructor / destructor ---- */
 static marked_ptr XV_NEW_NODE(raw_value_type item) {
   if (g_alloc_may_fail && nondet_bool()) { xv_threw = XV_EXC_bad_alloc; return 0; }
-  XV_MODEL_ASSERT("pool large enough", g_fresh < NN && !pool[g_fresh % NN].g_live);
+  XV_MODEL_ASSERT("pool large enough", g_fresh < NN && !a_live[g_fresh % NN]);
   XV_ASSUME(g_fresh < NN);
   unsigned i = g_fresh++;
-  /* one call site per pool element keeps `self` a constant pointer */
-  for (unsigned c = 0; c < NN; c++) if (c == i) {
-    havoc_words(&pool[c]);                            /* uninitialised storage */
-    pool[c].g_live = 1; pool[c].g_retired = 0; pool[c].g_deleted = 0;
-    ram_node_ctor(&pool[c], item);
-  }
+  struct node raw; havoc_words(&raw); raw.g_live = 1; raw.g_retired = 0; raw.g_deleted = 0;    /* uninitialised storage */
+  for (unsigned c = 0; c < NN; c++) if (c == i) put(c, &raw);
+  ram_node_ctor(NPTR(i), item);
   g_alloc_count++; g_last_alloc = NPTR(i);
   return NPTR(i);
 }
 static void XV_DELETE_NODE(marked_ptr w) {
   unsigned i = node_idx(w);
-  for (unsigned c = 0; c < NN; c++) if (c == i) {
-    if (!g_dtor_stub) ram_node_dtor(&pool[c]);
-    pool[c].g_live = 0; pool[c].g_deleted++;
-  }
-  g_delete_count++;
+  if (!g_dtor_stub) ram_node_dtor(w);
+  a_live[i] = 0; a_deleted[i]++; g_delete_count++;
 }
 
-static _Bool in_pool(void* a) { return (char*)a >= (char*)&pool[0] && (char*)a < (char*)&pool[NN]; }
 #ifdef XV_INT
 /* the entry belonging to the counter value drawn in this iteration (the slot map itself is decided by ram.idx.injective and the SEQ runs) */
+#define IT_GI (nidx(it_guard) % NN)
 #define IT_HAS_TICKET (it_acquired && it_ticket_drawn && it_idx < max_idx)
-#define IT_ENTRY(g) ((void*)&(g)->entries[it_idx % XV_E].value)
+#define IT_ENTRY ((void*)&a_entry[IT_GI][it_idx % XV_E])
 static void mon_load(void* addr, uint64_t v, int o) {
   if (!it_acquired) return;
-  struct node* g = &pool[nidx(it_guard) % NN];
-  if (addr == (void*)&g->next) { it_next_val = v; it_next_loaded = 1; }
-  if (IT_HAS_TICKET && addr == IT_ENTRY(g)) { it_entry_seen = v; it_entry_addr = addr; }
+  if (addr == (void*)&a_next[IT_GI]) { it_next_val = v; it_next_loaded = 1; }
+  if (IT_HAS_TICKET && addr == IT_ENTRY) { it_entry_seen = v; it_entry_read = 1; }
 }
 static void mon_store(void* addr, uint64_t v, int o) { }
 static void mon_rmw(void* addr, uint64_t oldv, uint64_t newv, int o) {
-  struct node* g = &pool[nidx(it_guard) % NN];
-  if (addr == (void*)&g->push_idx || addr == (void*)&g->pop_idx) {
+  if (addr == (void*)&a_push_idx[IT_GI] || addr == (void*)&a_pop_idx[IT_GI]) {
     XV_OBL("ram.int.ticket", it_acquired && !it_ticket_drawn && newv == oldv + XV_STEP);   /* one ticket per iteration, from the protected node */
     it_ticket_drawn = 1; it_idx = (unsigned)oldv;
   } else {
     /* the only other RMW is pop's exchange on the entry of its ticket */
-    XV_OBL("ram.pop.commit", IT_HAS_TICKET && addr == IT_ENTRY(g) && newv == INVALID && XV_IS_ACQUIRE(o));
-    it_entry_xchg = 1; it_entry_seen = oldv; it_entry_addr = addr;
+    XV_OBL("ram.pop.commit", IT_HAS_TICKET && addr == IT_ENTRY && newv == INVALID && XV_IS_ACQUIRE(o));
+    it_entry_xchg = 1; it_entry_seen = oldv; it_entry_read = 1;
   }
 }
 static void mon_cas(void* addr, uint64_t e, uint64_t d, _Bool ok, int o) {
-  struct node* g = &pool[nidx(it_guard) % NN];
   if (addr == (void*)&mon_q->_tail) {
     /* swing the tail: from the node the guard protects to the node linked behind it */
     it_tail_cas++;
@@ -194,15 +220,15 @@ static void mon_cas(void* addr, uint64_t e, uint64_t d, _Bool ok, int o) {
     it_head_cas++; it_head_cas_ok = ok;
     XV_OBL("ram.pop.commit", it_acquired && e == it_guard && it_next_loaded && d == it_next_val && d != 0 && XV_IS_RELEASE(o)
            && it_ticket_drawn && it_idx >= max_idx);
-  } else if (in_pool(addr) && it_acquired && addr == (void*)&g->next) {
+  } else if (it_acquired && addr == (void*)&a_next[IT_GI]) {
     /* link a new node behind the protected tail node */
     XV_OBL("ram.push.commit", !it_link_tried && e == 0 && d == g_last_alloc && g_alloc_count == g_delete_count + 1 && XV_IS_RELEASE(o)
            && it_ticket_drawn && it_idx >= max_idx
-           && pool[nidx(d) % NN].entries[0].value == g_raw && pool[nidx(d) % NN].next == 0);
+           && a_entry[nidx(d) % NN][0] == g_raw && a_next[nidx(d) % NN] == 0);
     it_link_tried = 1; it_link_ok = ok; it_link_desired = d;
   } else {
     /* store the value into the entry of the ticket just drawn */
-    XV_OBL("ram.push.commit", IT_HAS_TICKET && addr == IT_ENTRY(g) && !it_entry_cas && e == 0 && d == g_raw && XV_IS_RELEASE(o));
+    XV_OBL("ram.push.commit", IT_HAS_TICKET && addr == IT_ENTRY && !it_entry_cas && e == 0 && d == g_raw && XV_IS_RELEASE(o));
     it_entry_cas = 1; it_entry_cas_ok = ok;
   }
 }
@@ -214,46 +240,120 @@ static void mon_cas(void* addr, uint64_t e, uint64_t d, _Bool ok, int o) { }
 #endif
 
 /* ---- specification-level definitions ---- */
+/* Everything below works on counter values (multiples of step_size) and on the CONSTANTS k*step_size, k < entries_per_node:
+ * no multiplication or division of symbolic values (keeps the SAT instances easy). */
+#define TK(k) ((unsigned)(k) * XV_STEP)                  /* counter value of ticket k - use with constant k only */
 /* ticket -> entry (injective by ram.idx.injective); written as a table so that a symbolic ticket costs no divider */
 static unsigned spec_slot(unsigned k) { for (unsigned c = 0; c < XV_E; c++) if (k == c) return (c * XV_STEP) % XV_E; return 0; }
+static unsigned tk(unsigned k) { for (unsigned c = 0; c <= XV_E; c++) if (k == c) return TK(c); return TK(XV_E); }   /* symbolic k <= E */
 #define MAXT ((unsigned)1 << 27)         /* assumption: fewer than 2^27 tickets per node (no wrap of the 32-bit counters) */
-#define BAD_T 100000u
-/* ticket-level view of the pre-state: push_idx = pre_pt * step_size, pop_idx = pre_qt * step_size */
-unsigned pre_pt[NN], pre_qt[NN];
-/* representation invariant of one node (what concurrent pushes/pops can leave behind at any instant), pt/qt = tickets handed out */
-static _Bool node_inv(const struct node* n, unsigned pt, unsigned qt) {
-  if (pt >= MAXT || qt >= MAXT || n->push_idx != pt * XV_STEP || n->pop_idx != qt * XV_STEP) return 0;
-  if (n->next != 0 && !(is_nptr(n->next) && pt >= XV_E)) return 0;      /* a successor is appended only to a full node */
+struct node s_pre[NN]; word_t s_head0, s_tail0;      /* pre-state snapshot (the cut-loop invariants refer to it) */
+/* representation invariant of one node (what concurrent pushes/pops can leave behind at any instant);
+ * that the counters are multiples of step_size is established by construction (havoc_node) and kept by `advanced` below */
+static _Bool node_inv(const struct node* n) {
+  if (n->push_idx >= TK(MAXT) || n->pop_idx >= TK(MAXT)) return 0;
+  if (n->next != 0 && !(is_nptr(n->next) && n->push_idx >= max_idx)) return 0;      /* a successor is appended only to a full node */
   for (unsigned k = 0; k < XV_E; k++) {
-    marked_value w = n->entries[spec_slot(k)].value;
+    marked_value w = n->ent[spec_slot(k)];
     if (!IS_ENTRY_WORD(w)) return 0;
-    if (k >= pt && IS_VALUE(w)) return 0;            /* values only at tickets already handed to a producer */
-    if (w == INVALID && k >= qt) return 0;           /* invalidated only by the consumer holding that ticket */
+    if (TK(k) >= n->push_idx && IS_VALUE(w)) return 0;       /* values only at tickets already handed to a producer */
+    if (w == INVALID && TK(k) >= n->pop_idx) return 0;       /* invalidated only by the consumer holding that ticket */
   }
   return 1;
 }
-static void havoc_node(unsigned i) {
-  havoc_words(&pool[i]); pool[i].g_live = 1; pool[i].g_retired = 0; pool[i].g_deleted = 0;
-  pre_pt[i] = nondet_uint(); pre_qt[i] = nondet_uint();
-  XV_ASSUME(node_inv(&pool[i], pre_pt[i], pre_qt[i]));
+/* pool element i := an arbitrary node satisfying the invariant; returns the snapshot */
+static struct node havoc_node(unsigned i) {
+  struct node n; havoc_words(&n); n.g_live = 1; n.g_retired = 0; n.g_deleted = 0;
+  unsigned pt = nondet_uint(), qt = nondet_uint(); XV_ASSUME(pt < MAXT / 2 && qt < MAXT / 2);
+  n.push_idx = pt * XV_STEP; n.pop_idx = qt * XV_STEP;        /* tickets handed out so far: any number, also far beyond entries_per_node */
+  XV_ASSUME(node_inv(&n));
+  put(i, &n); s_pre[i] = n; return n;
 }
-static void dead_node(unsigned i) { havoc_words(&pool[i]); pool[i].g_live = 0; pool[i].g_retired = 0; pool[i].g_deleted = 0; }
-/* number of tickets drawn from a counter by one operation (it draws at most entries_per_node + 1, the environment of the roll-back run one more) */
-static unsigned drawn(unsigned pre_idx, unsigned post_idx) {
-  for (unsigned d = 0; d <= XV_E + 3; d++) if (post_idx == pre_idx + d * XV_STEP) return d;
-  return BAD_T;
+static void dead_node(unsigned i) { struct node n; havoc_words(&n); n.g_live = 0; n.g_retired = 0; n.g_deleted = 0; put(i, &n); s_pre[i] = n; }
+/* a counter went from a to b by drawing at most m tickets */
+static _Bool advanced(unsigned a, unsigned b, unsigned m) {
+  for (unsigned d = 0; d <= XV_E + 3; d++) if (d <= m && b == a + TK(d)) return 1;
+  return 0;
 }
-/* first ticket >= the push ticket whose entry is still free (XV_E if none) */
-static unsigned first_free(const struct node* n, unsigned pt) {
-  for (unsigned k = 0; k < XV_E; k++) if (k >= pt && n->entries[spec_slot(k)].value == 0) return k;
-  return XV_E;
+/* counter value of the first ticket >= the push counter whose entry is still free (max_idx if none) */
+static unsigned first_free(const struct node* n, unsigned* slot) {
+  for (unsigned k = 0; k < XV_E; k++) if (TK(k) >= n->push_idx && n->ent[spec_slot(k)] == 0) { *slot = spec_slot(k); return TK(k); }
+  *slot = 0; return max_idx;
 }
+/* the entry of the ticket with counter value idx (idx < max_idx, a multiple of step_size) */
+static unsigned slot_of_idx(unsigned idx, _Bool* ok) {
+  for (unsigned c = 0; c < XV_E; c++) if (idx == TK(c)) { *ok = 1; return spec_slot(c); }
+  *ok = 0; return 0;
+}
+static _Bool listed(const struct node* pre, unsigned i) {      /* node i reachable from element 0 in the pre-state (list 0 -> 1 -> 2) */
+  return i == 0 || (i == 1 && pre[0].next == NPTR(1)) || (i == 2 && pre[0].next == NPTR(1) && pre[1].next == NPTR(2));
+}
+/* ---- SEQ loop invariants (cut loops PUSHSEQ / POPSEQ) ---- */
+static void havoc_nodes_seq(void) {
+  for (unsigned i = 0; i < NN; i++) {
+    struct node n; havoc_words(&n); n.g_live = nondet_bool(); n.g_retired = nondet_uint(); n.g_deleted = nondet_uint(); put(i, &n);
+  }
+  mon_q->_head = nondet_word(); mon_q->_tail = nondet_word();
+  g_released = nondet_uint(); g_get_count = nondet_uint(); g_del_total = nondet_uint(); g_alloc_count = nondet_uint(); g_delete_count = nondet_uint();
+  g_valdel = nondet_uint(); g_fresh = nondet_uint(); xv_threw = nondet_int();
+}
+/* push, at the loop head: the value has not been placed yet; every ticket drawn so far belonged to an entry that was not free;
+ * the tail was helped forward at most once; nothing else has changed */
+static _Bool inv_pushseq(word_t value) {
+  if (value != in_val || g_released != 0 || g_alloc_count != 0 || g_delete_count != 0 || g_valdel != 0 || g_del_total != 0 || g_get_count != 0 || xv_threw != 0) return 0;
+  if (mon_q->_head != s_head0 || g_fresh != 2) return 0;
+  _Bool helped = mon_q->_tail == NPTR(1);
+  if (!(mon_q->_tail == NPTR(0) || (helped && s_pre[0].next == NPTR(1)))) return 0;
+  for (unsigned i = 0; i < 2; i++) {
+    struct node n = snap(i);
+    if (!n.g_live || n.g_retired != 0 || n.g_deleted != 0 || n.pop_idx != s_pre[i].pop_idx || n.next != s_pre[i].next) return 0;
+    if (!advanced(s_pre[i].push_idx, n.push_idx, XV_E + 1)) return 0;
+    for (unsigned s = 0; s < XV_E; s++) if (n.ent[s] != s_pre[i].ent[s]) return 0;
+    for (unsigned k = 0; k < XV_E; k++) if (TK(k) >= s_pre[i].push_idx && TK(k) < n.push_idx && s_pre[i].ent[spec_slot(k)] == 0) return 0;
+  }
+  unsigned p0 = a_push_idx[0], p1 = a_push_idx[1];
+  if (helped) { if (p0 != s_pre[0].push_idx + XV_STEP || !(p1 == s_pre[1].push_idx || p1 <= max_idx)) return 0; }
+  else { if (p1 != s_pre[1].push_idx || !(p0 == s_pre[0].push_idx || p0 <= max_idx)) return 0; }
+  for (unsigned i = 2; i < NN; i++) if (a_live[i]) return 0;
+  return 1;
+}
+/* pop, at the loop head: nothing has been handed out yet; the head has moved over drained nodes only (each retired once);
+ * every ticket drawn so far belonged to an entry without a value, and such a free entry is INVALID now; nothing else has changed */
+static _Bool inv_popseq(void) {
+  if (g_get_count != 0 || g_alloc_count != 0 || g_delete_count != 0 || g_released != 0 || g_del_total != 0 || g_valdel != 0 || xv_threw != 0) return 0;
+  if (mon_q->_tail != s_tail0 || g_fresh != 3) return 0;
+  word_t hd = mon_q->_head;
+  if (!(is_nptr(hd) && nidx(hd) < 3 && listed(s_pre, nidx(hd)))) return 0;
+  unsigned hc = nidx(hd);
+  for (unsigned i = 0; i < 3; i++) {
+    struct node n = snap(i);
+    if (!n.g_live || n.g_deleted != 0 || n.push_idx != s_pre[i].push_idx || n.next != s_pre[i].next) return 0;
+    if (!advanced(s_pre[i].pop_idx, n.pop_idx, XV_E + 1)) return 0;
+    if (i > hc && n.pop_idx != s_pre[i].pop_idx) return 0;
+    if (i < hc && !(n.pop_idx > max_idx && n.g_retired == 1)) return 0;
+    if (i >= hc && n.g_retired != 0) return 0;
+    if (i == hc && !(n.pop_idx == s_pre[i].pop_idx || n.pop_idx <= max_idx)) return 0;
+    for (unsigned k = 0; k < XV_E; k++) {
+      marked_value a = s_pre[i].ent[spec_slot(k)], b = n.ent[spec_slot(k)];
+      if (i <= hc && TK(k) >= s_pre[i].pop_idx && TK(k) < n.pop_idx) { if (IS_VALUE(a) || b != (a == 0 ? INVALID : a)) return 0; }
+      else if (b != a) return 0;
+    }
+  }
+  for (unsigned i = 3; i < NN; i++) if (a_live[i]) return 0;
+  return 1;
+}
+#ifdef XV_UNCUT
+#define RAM_PUSH ram_push
+#define RAM_POP ram_pop
+#else
+#define RAM_PUSH ram_push_seq
+#define RAM_POP ram_pop_seq
+#endif
 static void reset_ghost(void) {
   g_released = 0; g_get_count = 0; g_del_total = 0; g_alloc_count = 0; g_delete_count = 0; g_valdel = 0;
-  g_get_val = nondet_uptr(); g_trk_val = 0; g_last_alloc = 0; g_alloc_may_fail = 0; g_dtor_stub = 0;
+  g_get_val = nondet_word(); g_trk_val = 0; g_last_alloc = 0; g_alloc_may_fail = 0; g_dtor_stub = 0;
   xv_threw = 0; IT_RESET; it_guard = 0;
 }
-unsigned in_e, in_pop_t, in_push_t, in_gk;
 
 /* =========================== ram.idx.injective =========================== */
 void h_idx(void) {
@@ -286,13 +386,14 @@ void h_idx(void) {
 /* =========================== node constructor =========================== */
 void h_node_ctor(void) {
   reset_ghost();
-  struct node n; havoc_words(&n);
-  raw_value_type item = nondet_uptr(); XV_ASSUME((item & MARK63) == 0);
-  ram_node_ctor(&n, item);
-  XV_OBL("ram.node_ctor.prefilled", n.entries[0].value == item && n.pop_idx == 0 && n.push_idx == step_size && n.next == 0);
-  for (unsigned s = 1; s < XV_E; s++) XV_OBL("ram.node_ctor.prefilled", n.entries[s].value == 0);
+  dead_node(0); a_live[0] = 1;
+  raw_value_type item = nondet_word(); XV_ASSUME((item & MARK63) == 0);
+  ram_node_ctor(NPTR(0), item);
+  struct node n = snap(0);
+  XV_OBL("ram.node_ctor.prefilled", n.ent[0] == item && n.pop_idx == 0 && n.push_idx == step_size && n.next == 0);
+  for (unsigned s = 1; s < XV_E; s++) XV_OBL("ram.node_ctor.prefilled", n.ent[s] == 0);
   XV_OBL("ram.node_ctor.prefilled", spec_slot(0) == 0);      /* the pre-filled entry is the entry of ticket 0 */
-  XV_OBL("ram.inv.preserved", node_inv(&n, 1, 0));
+  XV_OBL("ram.inv.preserved", node_inv(&n));
   if (item != 0) XV_CANARY("node_ctor.reached");
 }
 
@@ -303,21 +404,28 @@ void h_node_ctor(void) {
 void h_node_dtor(void) {
   reset_ghost();
   in_e = XV_E;
-  struct node* n = &pool[0]; havoc_node(0);
-  in_pop_t = pre_qt[0]; in_push_t = pre_pt[0];
+  /* in_pop_t / in_push_t: tickets handed to consumers / producers so far (any number) */
+  struct node n0; havoc_words(&n0); n0.g_live = 1; n0.g_retired = 0; n0.g_deleted = 0;
+  in_pop_t = nondet_uint(); in_push_t = nondet_uint();
 #ifdef XV_DTOR_BOUNDED
   XV_ASSUME(in_pop_t <= XV_E + XV_OV && in_push_t <= XV_E + XV_OV);
+#else
+  XV_ASSUME(in_pop_t < MAXT / 2 && in_push_t < MAXT / 2);
 #endif
+  n0.pop_idx = in_pop_t * XV_STEP; n0.push_idx = in_push_t * XV_STEP;
+  XV_ASSUME(node_inv(&n0));
+  put(0, &n0);
   in_gk = nondet_uint(); XV_ASSUME(in_gk < XV_E);
   unsigned s = spec_slot(in_gk);
-  marked_value w = n->entries[s].value;
+  marked_value w = n0.ent[s];
   /* ~node's control flow does not depend on the values (only on null / non-null), so distinct values lose nothing: count destructions of w */
-  if (IS_VALUE(w)) { g_trk_val = w; for (unsigned o = 0; o < XV_E; o++) if (o != s) XV_ASSUME(n->entries[o].value != w); }
+  if (IS_VALUE(w)) { g_trk_val = w; for (unsigned o = 0; o < XV_E; o++) if (o != s) XV_ASSUME(n0.ent[o] != w); }
   /* the queue owns the value of ticket gk iff the ticket was handed to a producer, not yet to a consumer, and holds a value */
   _Bool owned = in_gk >= in_pop_t && in_gk < in_push_t && IS_VALUE(w);
-  ram_node_dtor(n);
+  ram_node_dtor(NPTR(0));
+  struct node n = snap(0);
   XV_OBL("ram.node_dtor.owned_only", g_valdel == (owned ? 1u : 0u));      /* destroyed exactly once if owned, never otherwise */
-  XV_OBL("ram.node_dtor.owned_only", n->entries[s].value == w && n->pop_idx == in_pop_t * XV_STEP && n->push_idx == in_push_t * XV_STEP);
+  XV_OBL("ram.node_dtor.owned_only", n.ent[s] == w && n.pop_idx == n0.pop_idx && n.push_idx == n0.push_idx);
   if (owned) XV_CANARY("node_dtor.owned");
   if (!owned && IS_VALUE(w) && in_gk < in_pop_t) XV_CANARY("node_dtor.consumed");
   if (in_pop_t > XV_E && in_push_t > in_pop_t) XV_CANARY("node_dtor.both_beyond_max");
@@ -329,187 +437,180 @@ void h_ctor(void) {
   reset_ghost();
   for (unsigned i = 0; i < NN; i++) dead_node(i);
   g_fresh = 0;
-  struct ramq q; q._head = nondet_uptr(); q._tail = nondet_uptr();
+  struct ramq q; q._head = nondet_word(); q._tail = nondet_word();
   ram_ctor(&q);
-  XV_OBL("ram.ctor.empty", g_alloc_count == 1 && q._head == NPTR(0) && q._tail == NPTR(0) && pool[0].g_live);
-  XV_OBL("ram.ctor.empty", pool[0].pop_idx == 0 && pool[0].push_idx == 0 && pool[0].next == 0);
-  for (unsigned s = 0; s < XV_E; s++) XV_OBL("ram.ctor.empty", pool[0].entries[s].value == 0);
-  XV_OBL("ram.inv.preserved", node_inv(&pool[0], 0, 0));
+  struct node n = snap(0);
+  XV_OBL("ram.ctor.empty", g_alloc_count == 1 && q._head == NPTR(0) && q._tail == NPTR(0) && n.g_live);
+  XV_OBL("ram.ctor.empty", n.pop_idx == 0 && n.push_idx == 0 && n.next == 0);
+  for (unsigned s = 0; s < XV_E; s++) XV_OBL("ram.ctor.empty", n.ent[s] == 0);
+  XV_OBL("ram.inv.preserved", node_inv(&n));
   XV_CANARY("ctor.reached");
 }
 
 unsigned in_len;
 void h_dtor(void) {
   reset_ghost(); g_dtor_stub = 1;          /* ~node has its own contract (h_node_dtor); here: which nodes are deleted, and how often */
-  for (unsigned i = 0; i < NN; i++) { havoc_node(i); pool[i].next = 0; }
+  for (unsigned i = 0; i < NN; i++) { havoc_node(i); a_next[i] = 0; }
   in_len = nondet_uint(); XV_ASSUME(in_len >= 1 && in_len <= 3);
-  for (unsigned i = 0; i < 2; i++) if (i + 1 < in_len) pool[i].next = NPTR(i + 1);
-  /* pool[in_len..] : nodes that are not in the list (e.g. retired, still waiting for reclamation) */
+  for (unsigned i = 0; i < 2; i++) if (i + 1 < in_len) a_next[i] = NPTR(i + 1);
+  /* elements in_len.. : nodes that are not in the list (e.g. retired, still waiting for reclamation) */
   struct ramq q; q._head = NPTR(0); q._tail = nondet_bool() ? NPTR(in_len - 1) : NPTR(in_len >= 2 ? in_len - 2 : 0);
   ram_dtor(&q);
   for (unsigned i = 0; i < NN; i++) {
-    XV_OBL("ram.dtor.each_node_once", pool[i].g_deleted == (i < in_len ? 1u : 0u));
-    XV_OBL("ram.dtor.each_node_once", pool[i].g_retired == 0);
+    XV_OBL("ram.dtor.each_node_once", a_deleted[i] == (i < in_len ? 1u : 0u));
+    XV_OBL("ram.dtor.each_node_once", a_retired[i] == 0);
   }
   if (in_len == 3) XV_CANARY("dtor.three_nodes");
   if (in_len == 1) XV_CANARY("dtor.one_node");
 }
 
 /* =========================== push, sequential (C04 + C07) =========================== */
-uintptr_t in_val;
-static void setup_push_state(struct ramq* q) {
-  /* pool[0] = the node _tail points to; pool[1] = its successor when the tail lags by one, otherwise an unrelated live node;
-   * pool[2], pool[3] = free storage */
-  havoc_node(0); havoc_node(1);
-  XV_ASSUME(pool[0].next == 0 || pool[0].next == NPTR(1));
-  XV_ASSUME(pool[1].next == 0);
-  dead_node(2); dead_node(3);
-  g_fresh = 2;
-  q->_tail = NPTR(0); q->_head = nondet_uptr();
-  mon_q = q;
-}
 /* node a (now) against node b (before): everything but entry except_slot and, unless push_idx_too, push_idx/next */
 static void check_node_unchanged(const struct node* a, const struct node* b, int except_slot, _Bool push_idx_too) {
-  for (unsigned s = 0; s < XV_E; s++) if ((int)s != except_slot) XV_OBL("ram.push.frame", a->entries[s].value == b->entries[s].value);
+  for (unsigned s = 0; s < XV_E; s++) if ((int)s != except_slot) XV_OBL("ram.push.frame", a->ent[s] == b->ent[s]);
   XV_OBL("ram.push.frame", a->pop_idx == b->pop_idx && a->g_retired == 0 && a->g_deleted == 0 && a->g_live);
   if (push_idx_too) XV_OBL("ram.push.frame", a->push_idx == b->push_idx && a->next == b->next);
 }
 void h_push(void) {
   reset_ghost();
-  struct ramq q; setup_push_state(&q);
-  struct node T0 = pool[0], N0 = pool[1]; uintptr_t head0 = q._head;
-  unsigned ptT = pre_pt[0], ptN = pre_pt[1];
-  in_val = nondet_uptr(); XV_ASSUME((in_val & MARK63) == 0);
+  struct ramq q;
+  /* element 0 = the node _tail points to; element 1 = its successor when the tail lags by one, otherwise an unrelated live node;
+   * elements 2.. = free storage */
+  struct node T0 = havoc_node(0), N0 = havoc_node(1);
+  XV_ASSUME(T0.next == 0 || T0.next == NPTR(1));
+  XV_ASSUME(N0.next == 0);
+  for (unsigned i = 2; i < NN; i++) dead_node(i);
+  g_fresh = 2; q._tail = NPTR(0); q._head = nondet_word(); mon_q = &q;
+  word_t head0 = q._head; s_head0 = head0;
+  in_val = nondet_word(); XV_ASSUME((in_val & MARK63) == 0);
   g_trk_val = in_val;
-  /* an arbitrary value already in the queue: (gn, gk) */
+  /* an arbitrary value already in the queue: node gn, ticket gk */
   unsigned gn = nondet_uint(), gk = nondet_uint(); XV_ASSUME(gn < 2 && gk < XV_E);
-  _Bool g_in = (gn == 0 || T0.next == NPTR(1)) && gk >= pre_qt[gn] && IS_VALUE(pool[gn].entries[spec_slot(gk)].value);
-  ram_push(&q, in_val);
+  const struct node* G0 = gn == 0 ? &T0 : &N0;
+  _Bool g_in = (gn == 0 || T0.next == NPTR(1)) && tk(gk) >= G0->pop_idx && IS_VALUE(G0->ent[spec_slot(gk)]);
+  RAM_PUSH(&q, in_val);
+  struct node T = snap(0), N = snap(1), M = snap(2);
   if (in_val == 0) {
     XV_OBL("ram.push.null_rejected", xv_threw == XV_EXC_std__invalid_argument && g_released == 0 && g_alloc_count == 0);
-    check_node_unchanged(&pool[0], &T0, -1, 1); check_node_unchanged(&pool[1], &N0, -1, 1);
+    check_node_unchanged(&T, &T0, -1, 1); check_node_unchanged(&N, &N0, -1, 1);
     XV_OBL("ram.push.frame", q._tail == NPTR(0) && q._head == head0);
     XV_CANARY("push.null");
     return;
   }
   XV_OBL("ram.push.accepts_once", xv_threw == 0);
-  unsigned kT = first_free(&T0, ptT), kN = first_free(&N0, ptN);
-  unsigned pn, pk; _Bool fresh = 0;           /* where the value must be now */
-  unsigned ptT1 = ptT, ptN1 = ptN;            /* tickets handed out afterwards */
-  if (kT < XV_E) {                             /* A: a free ticket in the tail node */
-    pn = 0; pk = kT; ptT1 = kT + 1;
-    XV_OBL("ram.push.slot", pool[0].entries[spec_slot(kT)].value == in_val && pool[0].push_idx == (kT + 1) * XV_STEP);
-    XV_OBL("ram.push.slot", pool[0].next == T0.next && q._tail == NPTR(0) && g_alloc_count == 0);
-    check_node_unchanged(&pool[0], &T0, (int)spec_slot(kT), 0); check_node_unchanged(&pool[1], &N0, -1, 1);
-    if (kT > ptT) XV_CANARY("push.slot_after_invalidated"); else XV_CANARY("push.slot");
+  unsigned sT, sN;
+  unsigned fT = first_free(&T0, &sT), fN = first_free(&N0, &sN);      /* counter value of the first free ticket (max_idx: none) */
+  unsigned pn, pidx; _Bool fresh = 0;          /* where the value must be now: node pn, ticket with counter value pidx */
+  if (fT < max_idx) {                          /* A: a free ticket in the tail node */
+    pn = 0; pidx = fT;
+    XV_OBL("ram.push.slot", T.ent[sT] == in_val && T.push_idx == fT + XV_STEP);
+    XV_OBL("ram.push.slot", T.next == T0.next && q._tail == NPTR(0) && g_alloc_count == 0);
+    check_node_unchanged(&T, &T0, (int)sT, 0); check_node_unchanged(&N, &N0, -1, 1);
+    if (fT > T0.push_idx) XV_CANARY("push.slot_after_invalidated"); else XV_CANARY("push.slot");
   } else if (T0.next == 0) {                   /* B: tail node full (or every remaining ticket invalidated), no successor: append */
-    pn = 2; pk = 0; fresh = 1; ptT1 = (ptT > XV_E ? ptT : XV_E) + 1;
-    XV_OBL("ram.push.new_node", pool[0].next == NPTR(2) && q._tail == NPTR(2));
-    XV_OBL("ram.push.new_node", pool[0].push_idx == ptT1 * XV_STEP);
-    check_node_unchanged(&pool[0], &T0, -1, 0); check_node_unchanged(&pool[1], &N0, -1, 1);
+    pn = 2; pidx = 0; fresh = 1;
+    XV_OBL("ram.push.new_node", T.next == NPTR(2) && q._tail == NPTR(2));
+    XV_OBL("ram.push.new_node", T.push_idx == (T0.push_idx > max_idx ? T0.push_idx : max_idx) + XV_STEP);
+    check_node_unchanged(&T, &T0, -1, 0); check_node_unchanged(&N, &N0, -1, 1);
     XV_CANARY("push.new_node");
   } else {                                     /* C/D: the tail lags by one: help it forward, then push there */
-    ptT1 = ptT + 1;
-    XV_OBL("ram.push.new_node", pool[0].push_idx == ptT1 * XV_STEP && pool[0].next == NPTR(1));
-    check_node_unchanged(&pool[0], &T0, -1, 0);
-    if (kN < XV_E) {
-      pn = 1; pk = kN; ptN1 = kN + 1;
-      XV_OBL("ram.push.new_node", q._tail == NPTR(1) && g_alloc_count == 0 && pool[1].next == 0);
-      XV_OBL("ram.push.slot", pool[1].entries[spec_slot(kN)].value == in_val && pool[1].push_idx == (kN + 1) * XV_STEP);
-      check_node_unchanged(&pool[1], &N0, (int)spec_slot(kN), 0);
+    XV_OBL("ram.push.new_node", T.push_idx == T0.push_idx + XV_STEP && T.next == NPTR(1));
+    check_node_unchanged(&T, &T0, -1, 0);
+    if (fN < max_idx) {
+      pn = 1; pidx = fN;
+      XV_OBL("ram.push.new_node", q._tail == NPTR(1) && g_alloc_count == 0 && N.next == 0);
+      XV_OBL("ram.push.slot", N.ent[sN] == in_val && N.push_idx == fN + XV_STEP);
+      check_node_unchanged(&N, &N0, (int)sN, 0);
       XV_CANARY("push.helped_tail");
     } else {
-      pn = 2; pk = 0; fresh = 1; ptN1 = (ptN > XV_E ? ptN : XV_E) + 1;
-      XV_OBL("ram.push.new_node", pool[1].next == NPTR(2) && q._tail == NPTR(2));
-      XV_OBL("ram.push.new_node", pool[1].push_idx == ptN1 * XV_STEP);
-      check_node_unchanged(&pool[1], &N0, -1, 0);
+      pn = 2; pidx = 0; fresh = 1;
+      XV_OBL("ram.push.new_node", N.next == NPTR(2) && q._tail == NPTR(2));
+      XV_OBL("ram.push.new_node", N.push_idx == (N0.push_idx > max_idx ? N0.push_idx : max_idx) + XV_STEP);
+      check_node_unchanged(&N, &N0, -1, 0);
       XV_CANARY("push.helped_tail_new_node");
     }
   }
   if (fresh) {
-    XV_OBL("ram.push.new_node", g_alloc_count == 1 && pool[2].g_live && pool[2].entries[0].value == in_val
-           && pool[2].pop_idx == 0 && pool[2].push_idx == XV_STEP && pool[2].next == 0 && pool[2].g_retired == 0 && pool[2].g_deleted == 0);
-    for (unsigned s = 1; s < XV_E; s++) XV_OBL("ram.push.new_node", pool[2].entries[s].value == 0);
-    XV_OBL("ram.inv.preserved", node_inv(&pool[2], 1, 0));
+    XV_OBL("ram.push.new_node", g_alloc_count == 1 && M.g_live && M.ent[0] == in_val
+           && M.pop_idx == 0 && M.push_idx == XV_STEP && M.next == 0 && M.g_retired == 0 && M.g_deleted == 0);
+    for (unsigned s = 1; s < XV_E; s++) XV_OBL("ram.push.new_node", M.ent[s] == 0);
+    XV_OBL("ram.inv.preserved", node_inv(&M));
   } else {
-    XV_OBL("ram.push.frame", !pool[2].g_live);
+    XV_OBL("ram.push.frame", !M.g_live);
   }
-  XV_OBL("ram.push.frame", q._head == head0 && g_delete_count == 0 && !pool[3].g_live && g_get_count == 0);
-  XV_OBL("ram.inv.preserved", node_inv(&pool[0], ptT1, pre_qt[0]) && node_inv(&pool[1], ptN1, pre_qt[1]) && NODE_P(node_idx(q._tail))->next == 0);
+  XV_OBL("ram.push.frame", q._head == head0 && g_delete_count == 0 && g_get_count == 0);
+  for (unsigned i = 3; i < NN; i++) XV_OBL("ram.push.frame", !a_live[i]);
+  XV_OBL("ram.inv.preserved", node_inv(&T) && node_inv(&N) && advanced(T0.push_idx, T.push_idx, XV_E + 1) && advanced(N0.push_idx, N.push_idx, XV_E + 1));
+  XV_OBL("ram.inv.preserved", q._tail == NPTR(pn) && (pn == 0 ? T.next : pn == 1 ? N.next : M.next) == 0);    /* the tail is the last node again */
   /* C07: the caller's object gave up ownership exactly once, and the value was not destroyed */
   XV_OBL("ram.push.accepts_once", g_released == 1 && g_valdel == 0 && g_del_total == 0);
   /* FIFO: every value that was in the queue is in front of the new one (node order, then ticket order) */
   if (g_in) {
-    XV_OBL("ram.push.fifo", gn < pn || (gn == pn && gk < pk));
+    XV_OBL("ram.push.fifo", gn < pn || (gn == pn && tk(gk) < pidx));
     XV_CANARY("push.fifo_witness");
   }
 }
 
 /* =========================== pop, sequential (C04 + C07) =========================== */
-static void setup_pop_state(struct ramq* q) {
-  /* list pool[0] -> pool[1] -> pool[2] (a prefix of it), head = pool[0]; pool[3] not live */
-  for (unsigned i = 0; i < 3; i++) havoc_node(i);
-  XV_ASSUME(pool[0].next == 0 || pool[0].next == NPTR(1));
-  XV_ASSUME(pool[1].next == 0 || pool[1].next == NPTR(2));
-  XV_ASSUME(pool[2].next == 0);
-  dead_node(3);
-  g_fresh = 3;
-  q->_head = NPTR(0); q->_tail = nondet_uptr();
-  mon_q = q;
-}
-static _Bool listed(const struct node* pre, unsigned i) {      /* node i reachable from pool[0] in the pre-state */
-  return i == 0 || (i == 1 && pre[0].next == NPTR(1)) || (i == 2 && pre[0].next == NPTR(1) && pre[1].next == NPTR(2));
-}
 void h_pop(void) {
   reset_ghost();
-  struct ramq q; setup_pop_state(&q);
-  struct node pre[3] = { pool[0], pool[1], pool[2] }; uintptr_t tail0 = q._tail;
+  struct ramq q;
+  /* list 0 -> 1 -> 2 (a prefix of it), head = element 0; further elements not live */
+  struct node pre[3];
+  for (unsigned i = 0; i < 3; i++) pre[i] = havoc_node(i);
+  XV_ASSUME(pre[0].next == 0 || pre[0].next == NPTR(1));
+  XV_ASSUME(pre[1].next == 0 || pre[1].next == NPTR(2));
+  XV_ASSUME(pre[2].next == 0);
+  for (unsigned i = 3; i < NN; i++) dead_node(i);
+  g_fresh = 3; q._head = NPTR(0); q._tail = nondet_word(); mon_q = &q;
+  word_t tail0 = q._tail; s_tail0 = tail0;
   unsigned gn = nondet_uint(), gk = nondet_uint(); XV_ASSUME(gn < 3 && gk < XV_E);
-  marked_value gw = pre[gn].entries[spec_slot(gk)].value;
-  _Bool g_in = listed(pre, gn) && gk >= pre_qt[gn] && IS_VALUE(gw);     /* (gn, gk) is an element of the abstract queue */
-  optval r = ram_pop(&q);
+  unsigned gidx = tk(gk);
+  marked_value gw = pre[gn].ent[spec_slot(gk)];
+  _Bool g_in = listed(pre, gn) && gidx >= pre[gn].pop_idx && IS_VALUE(gw);     /* (gn, gk) is an element of the abstract queue */
+  optval r = RAM_POP(&q);
+  struct node post[3]; for (unsigned i = 0; i < 3; i++) post[i] = snap(i);
   /* the head moves forward along the list; every node left behind is retired exactly once, no other */
   XV_OBL("ram.pop.next_node", is_nptr(q._head) && nidx(q._head) < 3 && listed(pre, nidx(q._head)));
   unsigned hp = nidx(q._head) % 3;
-  unsigned qt1[3];                              /* pop tickets handed out afterwards */
   for (unsigned i = 0; i < 3; i++) {
-    unsigned d = drawn(pre[i].pop_idx, pool[i].pop_idx);
-    XV_OBL("ram.pop.frame", d != BAD_T && (i <= hp || d == 0));
-    qt1[i] = pre_qt[i] + d;
-    XV_OBL("ram.pop.next_node", pool[i].g_retired == (i < hp ? 1u : 0u) && pool[i].g_deleted == 0 && pool[i].g_live);
-    if (i < hp) XV_OBL("ram.pop.next_node", qt1[i] > XV_E);   /* left only after a ticket beyond the node was drawn */
-    XV_OBL("ram.pop.frame", pool[i].push_idx == pre[i].push_idx && pool[i].next == pre[i].next);
-    XV_OBL("ram.inv.preserved", node_inv(&pool[i], pre_pt[i], qt1[i]));
+    XV_OBL("ram.pop.frame", advanced(pre[i].pop_idx, post[i].pop_idx, i <= hp ? XV_E + 1 : 0));
+    XV_OBL("ram.pop.next_node", post[i].g_retired == (i < hp ? 1u : 0u) && post[i].g_deleted == 0 && post[i].g_live);
+    if (i < hp) XV_OBL("ram.pop.next_node", post[i].pop_idx > max_idx);   /* left only after a ticket beyond the node was drawn */
+    XV_OBL("ram.pop.frame", post[i].push_idx == pre[i].push_idx && post[i].next == pre[i].next);
+    XV_OBL("ram.inv.preserved", node_inv(&post[i]));
   }
-  XV_OBL("ram.pop.frame", q._tail == tail0 && g_alloc_count == 0 && g_delete_count == 0 && !pool[3].g_live && g_released == 0 && g_del_total == 0);
+  XV_OBL("ram.pop.frame", q._tail == tail0 && g_alloc_count == 0 && g_delete_count == 0 && g_released == 0 && g_del_total == 0);
+  for (unsigned i = 3; i < NN; i++) XV_OBL("ram.pop.frame", !a_live[i]);
   /* entries: values are never modified (a consumed value stays where it is); a free entry whose ticket was drawn becomes INVALID */
   for (unsigned i = 0; i < 3; i++) for (unsigned k = 0; k < XV_E; k++) {
-    marked_value a = pre[i].entries[spec_slot(k)].value, b = pool[i].entries[spec_slot(k)].value;
-    _Bool was_drawn = i <= hp && k >= pre_qt[i] && k < qt1[i];
+    marked_value a = pre[i].ent[spec_slot(k)], b = post[i].ent[spec_slot(k)];
+    _Bool was_drawn = i <= hp && TK(k) >= pre[i].pop_idx && TK(k) < post[i].pop_idx;
     if (was_drawn && a == 0) XV_OBL("ram.pop.invalidate", b == INVALID);
     else XV_OBL("ram.pop.frame", b == a);
   }
-  unsigned rk = qt1[hp] - 1;
+  unsigned ridx = post[hp].pop_idx - XV_STEP;       /* counter value of the last ticket drawn from the node that is head now */
   if (r.has) {
-    XV_OBL("ram.pop.slot", qt1[hp] >= 1 && rk < XV_E && rk >= pre_qt[hp]);
-    XV_OBL("ram.pop.slot", IS_VALUE(pre[hp].entries[spec_slot(rk)].value) && r.v == pre[hp].entries[spec_slot(rk)].value);
+    _Bool rok; unsigned rs = slot_of_idx(ridx, &rok);
+    XV_OBL("ram.pop.slot", post[hp].pop_idx >= XV_STEP && rok && ridx >= pre[hp].pop_idx);
+    XV_OBL("ram.pop.slot", IS_VALUE(pre[hp].ent[rs]) && r.v == pre[hp].ent[rs]);
     XV_OBL("ram.pop.hands_over_once", g_get_count == 1 && g_get_val == r.v);
     if (g_in) {
-      XV_OBL("ram.pop.fifo", !(gn < hp || (gn == hp && gk < rk)));               /* nothing that was in the queue is in front of the returned value */
-      if (!(gn == hp && gk == rk)) XV_OBL("ram.pop.fifo", gk >= qt1[gn]);         /* and everything else is still in the queue */
+      XV_OBL("ram.pop.fifo", !(gn < hp || (gn == hp && gidx < ridx)));               /* nothing that was in the queue is in front of the returned value */
+      if (!(gn == hp && gidx == ridx)) XV_OBL("ram.pop.fifo", gn >= hp && gidx >= post[gn].pop_idx);   /* and everything else is still in the queue */
       XV_CANARY("pop.fifo_witness");
     }
     if (hp > 0) XV_CANARY("pop.value_next_node");
     if (hp == 2) XV_CANARY("pop.value_third_node");
-    if (rk > pre_qt[hp]) XV_CANARY("pop.value_after_invalidating");
-    if (hp == 0 && rk == pre_qt[0]) XV_CANARY("pop.value");
+    if (ridx > pre[hp].pop_idx) XV_CANARY("pop.value_after_invalidating");
+    if (hp == 0 && ridx == pre[0].pop_idx) XV_CANARY("pop.value");
   } else {
     XV_OBL("ram.pop.empty", !g_in);                  /* 'empty' only if there was no value in the queue */
     XV_OBL("ram.pop.hands_over_once", g_get_count == 0);
-    XV_OBL("ram.pop.empty", pool[hp].next == 0);
-    if (hp == 0 && pool[0].pop_idx == pre[0].pop_idx) XV_CANARY("pop.empty_untouched");
+    XV_OBL("ram.pop.empty", post[hp].next == 0);
+    if (hp == 0 && post[0].pop_idx == pre[0].pop_idx) XV_CANARY("pop.empty_untouched");
     if (hp > 0) XV_CANARY("pop.empty_after_drained_node");
-    if (pool[hp].pop_idx > pre[hp].pop_idx) XV_CANARY("pop.empty_after_invalidating");
+    if (post[hp].pop_idx > pre[hp].pop_idx) XV_CANARY("pop.empty_after_invalidating");
   }
 }
 
@@ -518,9 +619,9 @@ optval stub_pop_result; unsigned stub_pop_calls;
 static optval stub_pop(struct ramq* self) { stub_pop_calls++; return stub_pop_result; }
 void h_try_pop(void) {
   reset_ghost();
-  struct ramq q; q._head = nondet_uptr(); q._tail = nondet_uptr(); struct ramq q0 = q;
-  stub_pop_result.has = nondet_bool(); stub_pop_result.v = nondet_uptr(); stub_pop_calls = 0;
-  value_type result = nondet_uptr(), result0 = result;
+  struct ramq q; q._head = nondet_word(); q._tail = nondet_word(); struct ramq q0 = q;
+  stub_pop_result.has = nondet_bool(); stub_pop_result.v = nondet_word(); stub_pop_calls = 0;
+  value_type result = nondet_word(), result0 = result;
   _Bool r = ram_try_pop(&q, &result);
   XV_OBL("ram.try_pop.forwards", stub_pop_calls == 1 && r == stub_pop_result.has && result == (r ? stub_pop_result.v : result0));
   XV_OBL("ram.try_pop.forwards", q._head == q0._head && q._tail == q0._tail);
@@ -532,14 +633,14 @@ static void havoc_shared(void) {
   /* every shared cell gets an arbitrary well-typed value; a node that is private to this thread (allocated, not yet published) is left alone */
   _Bool have_private = g_alloc_count > g_delete_count && !it_link_ok;
   for (unsigned i = 0; i < NN; i++) {
-    if (!pool[i].g_live) continue;
+    if (!a_live[i]) continue;
     if (have_private && NPTR(i) == g_last_alloc) continue;
-    pool[i].pop_idx = nondet_uint(); pool[i].push_idx = nondet_uint();
-    uintptr_t nx = nondet_uptr(); XV_ASSUME(nx == 0 || (is_nptr(nx) && pool[nidx(nx) % NN].g_live && nidx(nx) != i)); pool[i].next = nx;
-    for (unsigned s = 0; s < XV_E; s++) { marked_value w = nondet_uptr(); XV_ASSUME(IS_ENTRY_WORD(w)); pool[i].entries[s].value = w; }
+    a_pop_idx[i] = nondet_uint(); a_push_idx[i] = nondet_uint();
+    word_t nx = nondet_word(); XV_ASSUME(nx == 0 || (is_nptr(nx) && a_live[nidx(nx) % NN] && nidx(nx) != i)); a_next[i] = nx;
+    for (unsigned s = 0; s < XV_E; s++) { marked_value w = nondet_word(); XV_ASSUME(IS_ENTRY_WORD(w)); a_entry[i][s] = w; }
   }
-  uintptr_t hd = nondet_uptr(), tl = nondet_uptr();
-  XV_ASSUME(is_nptr(hd) && pool[nidx(hd) % NN].g_live && is_nptr(tl) && pool[nidx(tl) % NN].g_live);
+  word_t hd = nondet_word(), tl = nondet_word();
+  XV_ASSUME(is_nptr(hd) && a_live[nidx(hd) % NN] && is_nptr(tl) && a_live[nidx(tl) % NN]);
   XV_ASSUME(!(have_private && (hd == g_last_alloc || tl == g_last_alloc)));
   mon_q->_head = hd; mon_q->_tail = tl;
 }
@@ -548,22 +649,23 @@ _Bool env_on; int env_kind; _Bool env_linked;
 void xv_env(void) {
   if (!env_on) return;
   if (env_kind == 0) { if (nondet_bool()) havoc_shared(); return; }      /* rely: anything well-typed */
-  /* env_kind 1: one competing producer B: draws a ticket on the full tail node pool[0], links its node pool[1] behind it, later swings the tail */
+  /* env_kind 1: one competing producer B: draws a ticket on the full tail node 0, links its node 1 behind it, later swings the tail */
   if (!env_linked) {
-    if (nondet_bool() && pool[0].next == 0 && pool[0].push_idx >= max_idx) { pool[0].next = NPTR(1); pool[0].push_idx += XV_STEP; env_linked = 1; }
+    if (nondet_bool() && a_next[0] == 0 && a_push_idx[0] >= max_idx) { a_next[0] = NPTR(1); a_push_idx[0] += XV_STEP; env_linked = 1; }
   } else if (nondet_bool() && mon_q->_tail == NPTR(0)) mon_q->_tail = NPTR(1);
 }
 #endif
 static void setup_int(struct ramq* q) {
-  for (unsigned i = 0; i < 3; i++) { pool[i].g_live = 1; pool[i].g_retired = 0; pool[i].g_deleted = 0; }
-  dead_node(3); g_fresh = 3;
+  for (unsigned i = 0; i < NN; i++) dead_node(i);
+  for (unsigned i = 0; i < 3; i++) a_live[i] = 1;
+  g_fresh = 3;
   mon_q = q; havoc_shared();
 }
 void h_push_int(void) {
 #ifdef XV_INT
   reset_ghost();
   struct ramq q; setup_int(&q);
-  g_raw = nondet_uptr(); XV_ASSUME(g_raw != 0 && (g_raw & MARK63) == 0); g_trk_val = g_raw;
+  g_raw = nondet_word(); XV_ASSUME(g_raw != 0 && (g_raw & MARK63) == 0); g_trk_val = g_raw;
   env_kind = 0; env_on = 1;
   ram_push_cut(&q, g_raw);
   env_on = 0;
@@ -583,7 +685,7 @@ void h_pop_int(void) {
   env_on = 0;
   if (r.has) {
     /* the value handed out was read from (or exchanged out of) the entry of the ticket drawn in this iteration */
-    XV_OBL("ram.pop.commit", IT_HAS_TICKET && it_entry_addr != 0 && IS_VALUE(it_entry_seen) && r.v == it_entry_seen);
+    XV_OBL("ram.pop.commit", IT_HAS_TICKET && it_entry_read && IS_VALUE(it_entry_seen) && r.v == it_entry_seen);
     XV_OBL("ram.pop.hands_over_once", g_get_count == 1 && g_get_val == r.v && it_head_cas == 0 && it_reclaims == 0);
     if (it_entry_xchg) XV_CANARY("pop_int.value_by_exchange"); else XV_CANARY("pop_int.value_by_load");
   } else {
@@ -599,34 +701,35 @@ void h_push_rollback(void) {
 #ifdef XV_INT
   reset_ghost();
   struct ramq q;
-  /* pool[0]: the tail node, no successor yet.  pool[1]: the node producer B is about to link (holds B's value).  pool[2], pool[3]: free */
-  havoc_node(0); XV_ASSUME(pool[0].next == 0);
-  havoc_node(1); XV_ASSUME(pool[1].next == 0);
+  /* element 0: the tail node, no successor yet.  element 1: the node producer B is about to link (holds B's value).  elements 2, 3: free */
+  struct node T0 = havoc_node(0); XV_ASSUME(T0.next == 0);
+  struct node N0 = havoc_node(1); XV_ASSUME(N0.next == 0);
   dead_node(2); dead_node(3);
-  g_fresh = 2; q._tail = NPTR(0); q._head = nondet_uptr(); mon_q = &q; uintptr_t head0 = q._head;
-  struct node T0 = pool[0], N0 = pool[1];
-  in_val = nondet_uptr(); XV_ASSUME(in_val != 0 && (in_val & MARK63) == 0); g_trk_val = in_val; g_raw = in_val;
+  g_fresh = 2; q._tail = NPTR(0); q._head = nondet_word(); mon_q = &q; word_t head0 = q._head;
+  in_val = nondet_word(); XV_ASSUME(in_val != 0 && (in_val & MARK63) == 0); g_trk_val = in_val; g_raw = in_val;
   env_kind = 1; env_linked = 0; env_on = 1;
   ram_push(&q, in_val);
   env_on = 0;
+  struct node P[4]; for (unsigned i = 0; i < 4; i++) P[i] = snap(i);
   XV_OBL("ram.push.rollback", xv_threw == 0 && g_released >= 1);
   XV_OBL("ram.push.rollback", g_valdel == 0 && g_del_total == 0);                        /* nothing destroyed */
   /* the value is in exactly one entry of a live node */
   unsigned places = 0;
-  for (unsigned i = 0; i < NN; i++) for (unsigned s = 0; s < XV_E; s++) {
-    _Bool was = (i == 0 && T0.entries[s].value == in_val) || (i == 1 && N0.entries[s].value == in_val);
-    if (pool[i].g_live && pool[i].entries[s].value == in_val && !was) places++;
+  for (unsigned i = 0; i < 4; i++) for (unsigned s = 0; s < XV_E; s++) {
+    _Bool was = (i == 0 && T0.ent[s] == in_val) || (i == 1 && N0.ent[s] == in_val);
+    if (P[i].g_live && P[i].ent[s] == in_val && !was) places++;
   }
   XV_OBL("ram.push.rollback", places == 1);
-  if (pool[2].g_deleted) {
+  if (P[2].g_deleted) {
     /* lost the race: our first node was never published and has been deleted exactly once */
-    XV_OBL("ram.push.rollback", env_linked && pool[2].g_deleted == 1 && !pool[2].g_live && pool[0].next == NPTR(1) && pool[1].next != NPTR(2) && q._tail != NPTR(2));
+    XV_OBL("ram.push.rollback", env_linked && P[2].g_deleted == 1 && !P[2].g_live && P[0].next == NPTR(1) && P[1].next != NPTR(2) && q._tail != NPTR(2));
     XV_OBL("ram.push.rollback", g_delete_count == 1);
     if (g_alloc_count == 2) {
-      XV_OBL("ram.push.rollback", pool[3].g_live && pool[3].entries[0].value == in_val && pool[1].next == NPTR(3) && q._tail == NPTR(3));
+      XV_OBL("ram.push.rollback", P[3].g_live && P[3].ent[0] == in_val && P[1].next == NPTR(3) && q._tail == NPTR(3));
       XV_CANARY("rollback.second_node");
     } else {
-      XV_OBL("ram.push.rollback", g_alloc_count == 1 && q._tail == NPTR(1) && pool[1].entries[spec_slot(first_free(&N0, pre_pt[1]) % XV_E)].value == in_val);
+      unsigned sN; unsigned fN = first_free(&N0, &sN);
+      XV_OBL("ram.push.rollback", g_alloc_count == 1 && q._tail == NPTR(1) && fN < max_idx && P[1].ent[sN] == in_val);
       XV_CANARY("rollback.stored_in_winner_node");
     }
     XV_CANARY("rollback.lost_race");
@@ -634,7 +737,7 @@ void h_push_rollback(void) {
     XV_OBL("ram.push.rollback", g_delete_count == 0);
     if (env_linked) XV_CANARY("rollback.helped"); else XV_CANARY("rollback.no_race");
   }
-  for (unsigned s = 0; s < XV_E; s++) if (T0.entries[s].value != 0) XV_OBL("ram.push.rollback", pool[0].entries[s].value == T0.entries[s].value);
-  XV_OBL("ram.push.rollback", q._head == head0 && pool[0].g_live && pool[1].g_live && pool[0].g_retired == 0 && pool[1].g_retired == 0);
+  for (unsigned s = 0; s < XV_E; s++) if (T0.ent[s] != 0) XV_OBL("ram.push.rollback", P[0].ent[s] == T0.ent[s]);
+  XV_OBL("ram.push.rollback", q._head == head0 && P[0].g_live && P[1].g_live && P[0].g_retired == 0 && P[1].g_retired == 0);
 #endif
 }
